@@ -128,6 +128,30 @@ pub fn op_exists(tag: &str, op: &str) -> bool {
     r
 }
 
+/// does the crate implement operator `op` for `Segment<T>` (level "seg") / `Piecewise<T>` (level "pw"), T named by `tag`?
+pub fn pw_op_exists(tag: &str, level: &str, op: &str) -> bool {
+    use std::collections::HashMap;
+    use std::sync::{Mutex, OnceLock};
+    static CACHE: OnceLock<Mutex<HashMap<(String, String, String), bool>>> = OnceLock::new();
+    let m = CACHE.get_or_init(|| Mutex::new(HashMap::new()));
+    let key = (tag.to_string(), level.to_string(), op.to_string());
+    if let Some(v) = m.lock().unwrap().get(&key) {
+        return *v;
+    }
+    let n = match crate::types::tag_len(tag) {
+        usize::MAX => 3,
+        n => n,
+    };
+    let c = Case::new("pwopsraw", tag)
+        .set("op", Val::S(op.into()))
+        .set("level", Val::S(level.into()))
+        .set("pw", Val::Pw(vec![(1.0, vec![1.0; n])]))
+        .set("s", Val::F(1.0));
+    let r = run_impl(&c).iter().any(|(k, v)| k == "impl" && v != "NOIMPL");
+    m.lock().unwrap().insert(key, r);
+    r
+}
+
 /// Runs the real code; returns the output fields (`impl`, and the reference fields monitors use).
 pub fn run_impl(c: &Case) -> Vec<(String, String)> {
     if let Some(v) = crate::extra::run_extra(c) {
@@ -216,19 +240,55 @@ pub fn run_impl(c: &Case) -> Vec<(String, String)> {
             let pr = Probe::<T>::new();
             let p = || T::from_nums(c.li("p"));
             let q = || T::from_nums(c.li("q"));
+            let show = |t: &T| hxs(&t.to_nums());
             let op = c.st("op").to_string();
             let r = catch_unwind(AssertUnwindSafe(|| match op.as_str() {
-                "mul" => (&pr).op_mul(p(), c.fl("s")),
-                "mulassign" => (&pr).op_mulassign(p(), c.fl("s")),
-                "neg" => (&pr).op_neg(p()),
-                "add" => (&pr).op_add(p(), q()),
-                "sub" => (&pr).op_sub(p(), q()),
-                "addassign" => (&pr).op_addassign(p(), q()),
-                "subassign" => (&pr).op_subassign(p(), q()),
+                "mul" => (&pr).op_mul(p(), c.fl("s"), &show),
+                "mulassign" => (&pr).op_mulassign(p(), c.fl("s"), &show),
+                "neg" => (&pr).op_neg(p(), &show),
+                "add" => (&pr).op_add(p(), q(), &show),
+                "sub" => (&pr).op_sub(p(), q(), &show),
+                "addassign" => (&pr).op_addassign(p(), q(), &show),
+                "subassign" => (&pr).op_subassign(p(), q(), &show),
                 _ => None,
             }));
             match r {
-                Ok(Some(v)) => hxs(&v),
+                Ok(Some(v)) => v,
+                Ok(None) => "NOIMPL".to_string(),
+                Err(_) => "PANIC".to_string(),
+            }
+        }),
+        // the same probe on the containers: level=seg -> Segment<T> (the first segment), level=pw -> Piecewise<T>
+        "pwopsraw" => with_all!(tag, T => {
+            #[allow(unused_imports)]
+            use crate::probe::*;
+            let op = c.st("op").to_string();
+            let seg_level = c.st("level") == "seg";
+            let pw = || pw_to::<T>(c.pw("pw"));
+            let r = catch_unwind(AssertUnwindSafe(|| {
+                if seg_level {
+                    let pr = Probe::<Segment<T>>::new();
+                    let show = |t: &Segment<T>| show_pw(&segs_from(std::slice::from_ref(t)));
+                    let p = || pw().segments.remove(0);
+                    match op.as_str() {
+                        "mul" => (&pr).op_mul(p(), c.fl("s"), &show),
+                        "mulassign" => (&pr).op_mulassign(p(), c.fl("s"), &show),
+                        "neg" => (&pr).op_neg(p(), &show),
+                        _ => None,
+                    }
+                } else {
+                    let pr = Probe::<Piecewise<T>>::new();
+                    let show = |t: &Piecewise<T>| show_pw(&pw_from(t));
+                    match op.as_str() {
+                        "mul" => (&pr).op_mul(pw(), c.fl("s"), &show),
+                        "mulassign" => (&pr).op_mulassign(pw(), c.fl("s"), &show),
+                        "neg" => (&pr).op_neg(pw(), &show),
+                        _ => None,
+                    }
+                }
+            }));
+            match r {
+                Ok(Some(v)) => v,
                 Ok(None) => "NOIMPL".to_string(),
                 Err(_) => "PANIC".to_string(),
             }
